@@ -428,7 +428,11 @@ pub fn check_bytes(bytes: &[u8], must_reject: bool, expect: Option<&TimeZone>, s
             st.class("unspecified_mixed_versions");
         }
         (Ok(z), Ok(Some(r))) => {
-            if z != r {
+            let deep = crate::model::MZone::from_tz(z.as_ref()) == crate::model::MZone::from_tz(r.as_ref());
+            if (z == r) != deep {
+                return Err(format!("`==` on TimeZone says {} but the zones read through their getters are {}: {z:?} / {r:?}", z == r, if deep { "equal" } else { "different" }));
+            }
+            if z != r || !deep {
                 return Err(format!("decoded zone differs from what the file encodes:\n got      {z:?}\n expected {r:?}\n ({})", hex()));
             }
             let (a, b) = (z.as_ref(), r.as_ref());
@@ -445,7 +449,7 @@ pub fn check_bytes(bytes: &[u8], must_reject: bool, expect: Option<&TimeZone>, s
     }
     if let Some(x) = expect {
         match &got {
-            Ok(z) if z == x => {}
+            Ok(z) if z == x && crate::model::MZone::from_tz(z.as_ref()) == crate::model::MZone::from_tz(x.as_ref()) => {}
             other => return Err(format!("file written from zone {x:?} decodes to {other:?} ({})", hex())),
         }
     }
